@@ -296,7 +296,10 @@ class Model:
         pr = Pred(slots={name: out}, eom={name: ("open", t, (amp, det_on, det_off))})
         if correct:
             basis = basis_of(ch.ch_id)
-            drift = -det_off * (t - t_ref) * 1e-3
+            # the phase drifts while the channel sits at the off-detuning, i.e. during the BUFFER (which starts after the fall-time wait
+            # has been adjusted to the clock / minimum duration), not from the unadjusted end of the fall time
+            b_ti = out[-1].ti if out else t
+            drift = -det_off * (t - max(t_ref, b_ti)) * 1e-3
             for q in tg:
                 ph, ts, used = _ref(self.pre, basis, q)
                 pr.refs[(basis, q)] = ((ph - drift) % TWO_PI, used)
